@@ -88,7 +88,7 @@ pub fn search(seed: u64, budget: &Budget, thorough: bool) -> (u64, Option<(Strin
     for _ in 0..rounds {
         if !budget.left() { break; }
         let nseq = 1 + rng.below(3) as usize;
-        let seqs: Vec<Vec<u8>> = (0..nseq).map(|_| { let n = 1 + rng.below(40) as usize; rng.bytes(n, b"ACGTN") }).collect();
+        let seqs: Vec<Vec<u8>> = (0..nseq).map(|_| { let n = rng.below(41) as usize; rng.bytes(n, b"ACGTN") }).collect();
         let width = 1 + rng.below(12) as usize;
         let crlf = rng.below(2) == 1;
         let chunk = *rng.pick(&[1usize, 2, 3, 5, 7, 64, 8192]);
